@@ -76,6 +76,8 @@ type Require struct {
 	// function is known to have a sign within SignMask (1 neg, 2 zero, 4 pos)
 	Param    string
 	SignMask uint8
+	// Inlined: the rule also applies to the event when it happens in a callee running on behalf of Func
+	Inlined bool
 }
 
 // Tables is the frozen slot filling for E1.
